@@ -1,0 +1,6 @@
+//go:build !verif
+// +build !verif
+
+package isaacstates
+
+func verifGate(string, ...interface{}) {}
